@@ -163,7 +163,7 @@ def main():
         random.Random(seed + 7).shuffle(nt_sorted)
         limit = 6000 if tier == "quick" else 60000
         cfgs = None if full else ([("g++", "c++17", True), ("clang++-14", "c++20", False)] if tier == "quick" else None)
-        ce_stats, ce_fail = cexpr.run(lines, mo_ab, suites.parse_line, tier, limit, priority=[d[0] for d in diverge] + nt_sorted, configs=cfgs)
+        ce_stats, ce_fail = cexpr.run(lines, mo_ab, suites.parse_line, tier, limit, priority=[d[0] for d in diverge] + special_first(lines, seed) + nt_sorted, configs=cfgs)
         for f in ce_fail:
             oracle_fail.append((f["input"] or "<translation unit>", "constant-evaluation " + f["config"], "compile error",
                                 "not accepted as a constant expression equal to the run-time/model value %s: %s" % (f.get("expected"), f["error"])))
@@ -283,6 +283,11 @@ def lean_obligations(suite, tier):
         if r.returncode != 0:
             res["ok"] = False; res["failed"].append("leanchecker " + mod)
     return res
+
+def special_first(lines, seed):
+    sp = sorted(l for l in lines if l in suites.SPECIAL)
+    random.Random(seed + 11).shuffle(sp)
+    return sp[:2000]
 
 def neighbour_search(suite, diverge, legs, rng, tier):
     """the model and the implementation disagree on some inputs, none of which violates the property:
